@@ -4,7 +4,7 @@ import Eliot.Model.Pretty
 
 text  = JSON string | {"cp":[code points]}            (the latter when the text holds lone surrogates)
 value = null | true | false | {"i":"<digits>"} | {"f":text} | {"s":text} | {"a":[value]} | {"o":[[text,value]...]}
-table = [{"v":value, "pformat"?:text, "dumps"?:text, "str"?:text, "utc"?:res, "local"?:res, "fdumps"?:res}]
+table = [{"v":value, "pformat"?:res, "dumps"?:text, "str"?:text, "utc"?:res, "local"?:res, "fdumps"?:res}]
         res = {"ok":text} | {"raises":cls}       — the Env functions, tabulated by the harness on the
         values the case applies them to (an absent entry renders as "<?>", which then shows as a diff)
 line  = {"bytes":[..], "repr":text, "loads": {"value":value} | "notjson" | {"raises":cls},
@@ -94,7 +94,7 @@ def parseRes (j : Json) : Except String (Except Exc Text) :=
 
 structure Entry where
   v : JVal
-  pformat : Option Text
+  pformat : Option (Except Exc Text)
   dumps : Option Text
   str : Option Text
   utc : Option (Except Exc Text)
@@ -113,7 +113,7 @@ def optRes (j : Json) (k : String) : Except String (Option (Except Exc Text)) :=
 
 def parseEntry (j : Json) : Except String Entry := do
   let v ← (j.getObjVal? "v") >>= parseValue
-  pure { v, pformat := ← optText j "pformat", dumps := ← optText j "dumps", str := ← optText j "str",
+  pure { v, pformat := ← optRes j "pformat", dumps := ← optText j "dumps", str := ← optText j "str",
          utc := ← optRes j "utc", loc := ← optRes j "local", fdumps := ← optRes j "fdumps" }
 
 structure Line where
@@ -143,7 +143,7 @@ def missing : Text := t "<?>"
 
 def mkEnv (table : List Entry) (lines : List Line) : Env :=
   let find (v : JVal) : Option Entry := table.find? (fun e => beqV e.v v)
-  { pformat := fun v => ((find v).bind (·.pformat)).getD missing
+  { pformat := fun v => ((find v).bind (·.pformat)).getD (.ok missing)
     dumps := fun v => ((find v).bind (·.dumps)).getD missing
     pyStr := fun v => ((find v).bind (·.str)).getD missing
     isoTime := fun v l => ((find v).bind (fun e => if l then e.loc else e.utc)).getD (.ok missing)
